@@ -60,9 +60,30 @@ def classify_docs(s, n):
             doc = B.to_text(B.envelope(3, ea), rng.random() < 0.5)
         else:
             doc = B.to_text(gen.rich_blob(rng, 3, pool, rng.choice(['mos', 'html', 'x'])))
+        ns_applied = False
+        if i % 6 == 5 and '<mos>' in doc:
+            ns_applied = True
+            # the whole document in a (default or prefixed) namespace: whatever the library makes of it, it says so
+            # with its own exceptions
+            doc = doc.replace('<mos>', rng.choice(['<mos xmlns="urn:mos:example">', '<mos xmlns="http://www.mosprotocol.com/">']), 1)
+            s.hist['classified_documents_in_a_namespace'] += 1
         try:
-            s.load(doc)
+            mo_ = s.load(doc)
             out = 'ok'
+            if ns_applied and type(mo_).__name__ != 'RunningOrder':
+                # ... and so does adding it to a running order (a roCreate as the right operand is outside the claim)
+                ro_ = s.load(gen.grid_ro(['A', 'B'], 'none'))
+                try:
+                    ro_ + mo_
+                except Exception as e2:
+                    mro2 = [c.__name__ for c in type(e2).__mro__]
+                    out = 'ok+' + type(e2).__name__
+                    if 'MosRoMgrException' not in mro2:
+                        s.custom_violation('foreign-exception-from-classification',
+                                           {'exc': mro2[:2], 'msg': str(e2)[:200], 'where': 'adding the classified object'},
+                                           {'type': 'classify', 'doc': doc, 'add': True}, msg_kind='namespaced')
+                from .. import events as EV
+                EV.drain()
         except Exception as e:
             out = type(e).__name__
             mro = [c.__name__ for c in type(e).__mro__]
@@ -214,7 +235,9 @@ def replay(s, data):
     w = data['witness']
     if w.get('type') == 'classify':
         try:
-            s.load(w['doc'])
+            mo_ = s.load(w['doc'])
+            if w.get('add'):
+                s.load(gen.grid_ro(['A', 'B'], 'none')) + mo_
         except Exception as e:
             mro = [c.__name__ for c in type(e).__mro__]
             if 'MosRoMgrException' not in mro:
